@@ -27,6 +27,7 @@ package main
 
 import (
 	"fmt"
+	"os"
 	"sort"
 	"strconv"
 	"strings"
@@ -110,6 +111,9 @@ func hwParseTree(spec string) []gosensors.Chip {
 			panic("hw: bad chip " + cs)
 		}
 		c := gosensors.Chip{Path: p[4]}
+		if strings.HasPrefix(p[4], "@R") {
+			c.Path = hwRealDir(p[4])
+		}
 		if p[0] != "-" {
 			c.Prefix = p[0]
 		}
@@ -315,4 +319,44 @@ func hwHandler(op string, a kv) string {
 	return "bad-op"
 }
 
-func init() { register("hw", hwHandler) }
+// chips whose path in the spec is `@R<k>` live in a REAL directory (created on demand) whose files `hw.files` creates:
+// whatever the binding code looks up in the file system, it finds a real sysfs-like directory there. Outputs name the
+// directory by its token again.
+var hwRealBase string
+
+func hwRealDir(tok string) string {
+	if hwRealBase == "" {
+		d, err := os.MkdirTemp("", "verifhwreal")
+		if err != nil {
+			panic(err)
+		}
+		hwRealBase = d + "/R"
+		cleanups = append(cleanups, func() { os.RemoveAll(d) })
+	}
+	dir := hwRealBase + tok[2:]
+	_ = os.MkdirAll(dir, 0755)
+	return dir
+}
+
+func init() {
+	register("hw", func(op string, a kv) string {
+		if op == "hw.files" {
+			dir := hwRealDir(a.str("chip", "@R0"))
+			ents, _ := os.ReadDir(dir)
+			for _, e := range ents {
+				_ = os.Remove(dir + "/" + e.Name())
+			}
+			for _, f := range strings.Split(a.str("files", ""), "+") {
+				if f != "" {
+					_ = os.WriteFile(dir+"/"+f, []byte("1\n"), 0644)
+				}
+			}
+			return "ok"
+		}
+		out := hwHandler(op, a)
+		if hwRealBase != "" {
+			out = strings.ReplaceAll(out, hwRealBase, "@R")
+		}
+		return out
+	})
+}
